@@ -364,6 +364,10 @@ var c04Bodies = map[string]string{
 	"incplain":  `<template include="sep.vuego"></template>x{{ it }}`,
 	"slotplain": `<template include="s.vuego"><template v-slot><u>{{ it }}</u></template></template>`,
 	"slotempty": `<template include="s.vuego"></template><u>{{ it }}</u>`,
+	// a variable that the body sets for some items only (a plain attribute of a <template>) is
+	// gone with the instance that set it
+	"tmplplainif":   `<em v-if="it == 's1'"><template mark="M">!</template></em>[{{ it }}|{{ mark }}]`,
+	"tmplplainelse": `<em v-if="it != 's1'">e</em><u v-else><template mark="M" note="N">!{{ mark }}</template></u>[{{ it }}|{{ mark }}{{ note }}]`,
 }
 
 var c04BodyNames = func() []string {
@@ -611,7 +615,7 @@ func init() {
 	core.Register(&core.Check{
 		ID:    "C04",
 		Level: "exploration",
-		Rule: "every combination of collection kind (18: incl. slices with nil items, slices of any/int/int32/string/bool/map/struct (fields and the whole item printed)/*struct, array, pointer to slice / array, nil slice, nil value, missing) x length x access path x loop form (incl. the tight and padded spellings of (i, v)) x loop-variable name (fresh / shadows a map key / shadows a root struct field by name / by JSON tag / spelled with non-ASCII letters, digits, _ or $ / named like a function of the expression library) x v-else (none/adjacent/after whitespace) x looped element (plain, per-item v-if keeping some / no items, bindings, <template>, <template :key>, a body with an unevaluated <template> binding a variable named like the loop's) x root data (map/struct/*struct) x printing position ({{ }}, expression); the loop (with its v-else) as the whole content of a component file; plus nested loops; plus a body part: 23 ways a loop body can consume the item (text, deep text, interpolated/bound attribute, :class, :style, v-text, v-html, <template v-html>, v-show, inner v-if/v-else, <template :var>, include with bound / interpolated prop, slot content used once / twice, prop-less include, v-slot template without props, include without content, inner v-for, filters, pre) x 1..3 items x loop form x looped element x entry point, with the oracle: instance i shows item i and no other item and equals the single instance of a loop over [item i] alone, and the outer variables named like the loop variables have their outer values before and after the loop. " +
+		Rule: "every combination of collection kind (18: incl. slices with nil items, slices of any/int/int32/string/bool/map/struct (fields and the whole item printed)/*struct, array, pointer to slice / array, nil slice, nil value, missing) x length x access path x loop form (incl. the tight and padded spellings of (i, v)) x loop-variable name (fresh / shadows a map key / shadows a root struct field by name / by JSON tag / spelled with non-ASCII letters, digits, _ or $ / named like a function of the expression library) x v-else (none/adjacent/after whitespace) x looped element (plain, per-item v-if keeping some / no items, bindings, <template>, <template :key>, a body with an unevaluated <template> binding a variable named like the loop's) x root data (map/struct/*struct) x printing position ({{ }}, expression); the loop (with its v-else) as the whole content of a component file; plus nested loops; plus a body part: 25 ways a loop body can consume the item (text, deep text, interpolated/bound attribute, :class, :style, v-text, v-html, <template v-html>, v-show, inner v-if/v-else, <template :var>, include with bound / interpolated prop, slot content used once / twice, prop-less include, v-slot template without props, include without content, inner v-for, filters, pre, a <template> with plain attributes reached for one item only) x 1..3 items x loop form x looped element x entry point, with the oracle: instance i shows item i and no other item and equals the single instance of a loop over [item i] alone, and the outer variables named like the loop variables have their outer values before and after the loop. " +
 			"oracle: reference interpreter gives the instance list, for-else presence and the value of the loop variable's name before and after the loop. non-trivial = at least one item",
 		Bounds:      map[string]string{"quick": "lengths 0..2 in the full product, lengths up to 33 for 4 collection kinds, nesting depth 2", "thorough": "lengths 0..3, nesting depth 2"},
 		Assumptions: []string{"iteration over maps is C10's subject, not enumerated here"},
